@@ -5,6 +5,7 @@
 (* printed as JSON: the history IS the abstract form; the harness decorates and renders it.       *)
 EXTENDS RowParser, Json
 CONSTANTS MaxRows, Mode     \* Mode: "ok" (distinct names, errors pruned) | "clash" (collision-prone name pool)
+                            \*       "all" (no pruning; alphabet includes every row-level and tree-level error shape: C17)
 VARIABLE hist
 gvars == <<rpvars, hist>>
 
@@ -14,7 +15,7 @@ Base == [k |-> "q", ct |-> "", name |-> "", lname |-> "", hasname |-> TRUE, name
          trig |-> FALSE, refs |-> <<>>, cattrs |-> <<>>, tlapp |-> "field-list", warns |-> <<>>, shape |-> "text"]
 With(f) == f @@ Base
 Nm == "n" \o ToString(rowno)
-Pool == IF Mode = "ok" THEN {Nm} ELSE {"a", "A", "b", "a_count", "a_other", "meta", "data"}
+Pool == IF Mode = "ok" THEN {Nm} ELSE IF Mode = "all" THEN {Nm, "dq"} ELSE {"a", "A", "b", "a_count", "a_other", "meta", "data"}
 Low(n) == IF n = "A" THEN "a" ELSE n
 NamedShapes(nm) == LET N(f) == With(f @@ [name |-> nm, lname |-> Low(nm)]) IN {
    N([shape |-> "text"]),
@@ -38,7 +39,23 @@ UnnamedShapes == {
    With([shape |-> "blank", k |-> "skip", hasname |-> FALSE]),
    With([shape |-> "audit", k |-> "audit", hasname |-> FALSE, type |-> "audit"]) }
 
+\* shapes that carry a structural error (the C17 catalogue, row-loop and tree level); used only in Mode "all"
+ErrShapes(nm) == LET N(f) == With(f @@ [name |-> nm, lname |-> Low(nm)]) IN {
+   With([shape |-> "e_notype", k |-> "notype", hasname |-> TRUE, name |-> nm, lname |-> Low(nm)]),
+   With([shape |-> "e_noname", hasname |-> FALSE]),
+   N([shape |-> "e_badname", nameok |-> FALSE]),
+   With([shape |-> "e_badname_group", k |-> "begin", ct |-> "group", type |-> "group", nameok |-> FALSE, name |-> nm, lname |-> Low(nm)]),
+   With([shape |-> "e_noname_repeat", k |-> "begin", ct |-> "repeat", type |-> "repeat", hasname |-> FALSE]),
+   N([shape |-> "e_calc_nocalc", type |-> "calculate", lh |-> FALSE]),
+   N([shape |-> "e_sel_nolist", k |-> "select", type |-> "select one", list |-> "Z", listkind |-> "plain"]),
+   N([shape |-> "e_sel_other_filter", k |-> "select", type |-> "select one", list |-> "L", listkind |-> "plain", other |-> TRUE, filt |-> TRUE]),
+   With([shape |-> "e_audit_named", k |-> "audit", type |-> "audit", name |-> "aud", lname |-> "aud"]),
+   N([shape |-> "e_unknown_type", type |-> "no such type"]),
+   N([shape |-> "e_nolabel", lh |-> FALSE]),
+   N([shape |-> "e_badref", refs |-> <<"nowhere">>]),
+   N([shape |-> "e_selfdup_ref", refs |-> <<"dq">>]) }
 Shapes == UNION {NamedShapes(nm) : nm \in Pool} \cup UnnamedShapes
+          \cup (IF Mode = "all" THEN UNION {ErrShapes(nm) : nm \in Pool} ELSE {})
 
 Cfg0 == [lists |-> {"L", "M"}, formname |-> "data", omitid |-> FALSE, iname |-> FALSE, entity |-> FALSE]
 
@@ -52,9 +69,10 @@ GSpec == GInit /\ [][GNext]_gvars
 Closable == Len(hist) + Len(stack) <= MaxRows
 NoErr == outcome.status # "error"
 OneAudit == Len(meta) <= 1
-Out == [rows |-> [i \in 1..Len(hist) |-> <<hist[i].shape, hist[i].name>>], status |-> outcome.status, kind |-> outcome.kind]
+Out == [rows |-> [i \in 1..Len(hist) |-> <<hist[i].shape, hist[i].name>>], status |-> outcome.status, kind |-> outcome.kind, row |-> outcome.row]
 Emit == (outcome.status = "done") => PrintT(ToJson(Out))
 EmitAll == (outcome.status \in {"done", "error"}) => PrintT(ToJson(Out))
 GenClash == Closable /\ OneAudit /\ EmitAll
+GenAll == OneAudit /\ EmitAll
 GenOk == NoErr /\ Closable /\ OneAudit /\ Emit
 =============================================================================
